@@ -438,6 +438,20 @@ let handle_semt fields =
     let input = form ^ " | " ^ st ^ " | " ^ sv ^ " | " ^ slit in
     count_case input true; sample "semt" input impl;
     if is_prefix "PANIC" impl then (if orc <> "ok" then oracle_fail "semt" input orc)
+    else if is_prefix "arith:" form then begin
+      (* operands of an arithmetic expression against TypeRules.arith_cast *)
+      let op = match String.sub form 6 (String.length form - 6) with
+        | "+" -> Types.OAdd | "-" -> Types.OSub | "*" -> Types.OMul | "/" -> Types.ODiv
+        | o -> raise (Parse ("arith op " ^ o)) in
+      let tl = ty_of_string st and tr = ty_of_string sv in
+      let ((t, cl), cr) = TypeRules.arith_cast op tl tr in
+      let m = Printf.sprintf "ty=%s;lc=%s;rc=%s" (enc_ty t) (b01 cl) (b01 cr) in
+      if m <> impl then begin
+        mismatch "semt" input impl m;
+        oracle_fail "semt" input ("FAIL C08: arithmetic operands [" ^ impl ^ "] are not cast exactly when they differ from the common type [" ^ m ^ "]")
+      end;
+      if orc <> "ok" then oracle_fail "semt" input orc
+    end
     else begin
       let t = ty_of_string st and v = ty_of_string sv and lit = lit_of_string slit in
       let cast = field "cast" impl = "1" and diag = field "diag" impl = "1" in
@@ -730,7 +744,7 @@ let label_names : (int, string) H.t = H.create 1000
 let () =
   L.iter (fun (w, k) -> H.replace label_table w k; H.replace label_names k w)
     [ ("ann", 1); ("version", 2); ("incstd", 3); ("incfile", 4); ("if", 5); ("while", 6); ("for", 7); ("switch", 8);
-      ("gatedef", 9); ("def", 10); ("block", 11); ("single", 12); ("leaf", 13); ("case", 14);
+      ("gatedef", 9); ("def", 10); ("block", 11); ("single", 12); ("leaf", 13); ("case", 14); ("empty", 15);
       ("oannotated", 50); ("oif", 51); ("owhile", 52); ("ofor", 53); ("oswitch", 54); ("ogatedef", 55); ("odef", 56);
       ("oblock", 57); ("osome", 58); ("onone", 59); ("ostmts", 60); ("ocase", 61); ("oleaf", 62); ("oanns", 63); ("obad", 99) ]
 let next_label = ref 1000
